@@ -36,7 +36,8 @@ def for_property(prop, tier):
     obs = [o for o in _OBS if prop in o["props"] and (tier == "thorough" or o["tier"] == "quick")]
     # C01 is the f64 claim, C02 the f32 claim: instantiation-specific obligations go to their own property
     if prop == "C01":
-        obs = [o for o in obs if not o["id"].endswith("_f32") and "_f32_" not in o["id"]]
+        # (the digit comparison is generic code whose only affordable quick instance is f32: keep it for C01 too)
+        obs = [o for o in obs if ("negative_comp" in o["id"]) or (not o["id"].endswith("_f32") and "_f32_" not in o["id"])]
     if prop == "C02":
         obs = [o for o in obs if not o["id"].endswith("_f64") and "_f64_" not in o["id"]]
     return obs
@@ -250,8 +251,8 @@ for t, md in (("f64", 769), ("f32", 114)):
     for ln in (1, 2, 3):
         K("pslow_positive_comp_%s_%d" % (t, ln), "slow", PSP, "positive_digit_comp::<%s> with Bigint::pow a ghost recorder (contract: value becomes digits*10^e): one scaling by 10^e; packed result == RNE(sticky) of the big integer's value (top 64 bits, bit length, all lower bits)" % t, ["slow::positive_digit_comp", "bigint::Bigint::hi64", "bigint::Bigint::bit_length"], strength="bounded", bound="scaled integer of %d limbs (all limb values)" % ln, features=["default", "compact"], zflags=("stubbing",), timeout=900, tier="quick" if ln in (1, 2) else "thorough")
 
-PMANT_CASES = ['pslow_pmant_i0_f23_z1_m21', 'pslow_pmant_i3_f0_all', 'pslow_pmant_i0_f5_z2_all', 'pslow_pmant_i0_f3_z3_all', 'pslow_pmant_i2_f3_all', 'pslow_pmant_i20_f0_all', 'pslow_pmant_i19_f2_all', 'pslow_pmant_i5_f5_m3', 'pslow_pmant_i2_f5_m4', 'pslow_pmant_i2_f5_m7', 'pslow_pmant_i0_f8_z2_m4', 'pslow_pmant_i21_f0_m20', 'pslow_pmant_i19_f3_m19', 'pslow_pmant_i10_f12_m21']
-PMANT_QUICK = ['pslow_pmant_i3_f0_all', 'pslow_pmant_i0_f5_z2_all', 'pslow_pmant_i5_f5_m3', 'pslow_pmant_i2_f5_m4', 'pslow_pmant_i0_f8_z2_m4', 'pslow_pmant_i2_f3_all', 'pslow_pmant_i21_f0_m20']
+PMANT_CASES = ['pslow_pmant_i38_f0_all', 'pslow_pmant_i20_f18_all', 'pslow_pmant_i0_f23_z1_m21', 'pslow_pmant_i3_f0_all', 'pslow_pmant_i0_f5_z2_all', 'pslow_pmant_i0_f3_z3_all', 'pslow_pmant_i2_f3_all', 'pslow_pmant_i20_f0_all', 'pslow_pmant_i19_f2_all', 'pslow_pmant_i5_f5_m3', 'pslow_pmant_i2_f5_m4', 'pslow_pmant_i2_f5_m7', 'pslow_pmant_i0_f8_z2_m4', 'pslow_pmant_i21_f0_m20', 'pslow_pmant_i19_f3_m19', 'pslow_pmant_i10_f12_m21']
+PMANT_QUICK = ['pslow_pmant_i38_f0_all', 'pslow_pmant_i3_f0_all', 'pslow_pmant_i0_f5_z2_all', 'pslow_pmant_i5_f5_m3', 'pslow_pmant_i2_f5_m4', 'pslow_pmant_i0_f8_z2_m4', 'pslow_pmant_i2_f3_all', 'pslow_pmant_i21_f0_m20']
 for nm in PMANT_CASES:
     K(nm, "slow", PSP, "parse_mantissa(int, frac, max_digits), vector mul_small/add_small replaced by ghost value recorders (contracts c12_small_mul / c12_small_add_from): big integer == first min(significant, max_digits) significant digits (leading fraction zeros skipped when there is no integer part), plus ONE digit '1' iff a later digit of integer or fraction is non-zero (trailing zeros never add it); count == digits in that integer", ["slow::parse_mantissa"], zflags=("stubbing",),
       strength="bounded", bound="digit-count shape %s (i integer digits, f fraction digits, z leading zeros, m/all = max_digits), all digit values symbolic" % nm[12:], features=["default", "compact"], timeout=1200, tier="quick" if nm in PMANT_QUICK else "thorough")
